@@ -1,6 +1,7 @@
 #!/bin/bash
-# tools/with_patch.sh <patch.diff> <command...> : run a command with VERIF_REPO pointing to a scratch worktree with the patch applied
+# tools/with_patch.sh <patch.diff> <command...> : run a command with VERIF_REPO pointing to a scratch worktree with the patch applied; exit code of the command
 P=$(realpath $1); shift
 WT=$(mktemp -u /tmp/amshan_wp_XXXX)
-git -C /repo worktree add -q --detach $WT HEAD && git -C $WT apply $P && VERIF_REPO=$WT "$@"
+git -C /repo worktree add -q --detach $WT HEAD && git -C $WT apply $P && VERIF_REPO=$WT "$@"; rc=$?
 git -C /repo worktree remove --force $WT
+exit $rc
